@@ -1,5 +1,6 @@
-(* Extraction for C15: the router lifecycle / queued-action protocol model. *)
+(* Extraction for C15: the router lifecycle / queued-action protocol model with the checkpoint-vertex layer. *)
 Require Extraction.
 Require Import ExtrOcamlBasic.
 From Adapt Require Import Avoid.LifecycleModel.
-Extraction "c15_model.ml" init step legal heap active aconns queue bad freed alive.
+Extraction "c15_model.ml" init step legal heap active aconns queue bad freed alive
+  xinit xstep xlegal core vheap cpv vfreed vbad live_cp.
